@@ -35,7 +35,7 @@ fn meta() -> Meta {
     Meta {
         id: "C18",
         level: "model_checking",
-        rule: "every word up to the depth bound over {W(5), W(80) (> buffer capacity 64), F, ExtRename, ExtRemove, Reopen, Reset(basename), Reset(directory), Reset(rotation toggled), R, ExtRename of the additional file writer's file}; every write also sends one record to the additional file writer X x {Direct, BufferDontFlush(64), BufferAndFlush(64)} x {no rotation, Numbers, TimestampsDirect}; external rename/remove applies to the file currently written to and is only issued when that file exists; states = distinct model states (number of physical files, their record counts) reached, non-trivial = word contains an external rename/remove followed by a reopen, or a reset, with writes before and after; every word with append on and off; ReopenFault = reopen_output while the first re-open it attempts fails by injection (the error is returned, the other writer is switched nevertheless; in the units with append, once the writers are active, the failure is real instead: the directory tree is moved away for the duration of the call, the error is returned and both writers keep the files they have open; in the units without append, when the current file was moved or removed before, a directory is put at its path for the duration of the call: the error is returned and the records logged afterwards are either in the file the writer had open or in the visible substitute file the re-open code leaves next to the path); ExtRenameCreate = rename the current file and create an empty file at its path (logrotate create)",
+        rule: "every word up to the depth bound over {W(5), W(80) (> buffer capacity 64), F, ExtRename, ExtRemove, Reopen, Reset(basename), Reset(directory), Reset(rotation toggled), R, ExtRename of the additional file writer's file}; every write also sends one record to the additional file writer X x {Direct, BufferDontFlush(64), BufferAndFlush(64)} x {no rotation, Numbers, TimestampsDirect}; external rename/remove applies to the file currently written to and is only issued when that file exists; states = distinct model states (number of physical files, their record counts) reached, non-trivial = word contains an external rename/remove followed by a reopen, or a reset, with writes before and after; every word with append on and off; ReopenFault = reopen_output while the first re-open it attempts fails by injection (the error is returned, the other writer is switched nevertheless; in the units with append, once the writers are active, the failure is real instead: the directory tree is moved away for the duration of the call, the error is returned and both writers keep the files they have open; in the units without append, when the current file was moved or removed before, a directory is put at its path for the duration of the call: the error is returned and the records logged afterwards are either in the file the writer had open or in the visible substitute file the re-open code leaves next to the path); ExtRenameCreate = rename the current file and create an empty file at its path (logrotate create); plus log_to_file_and_writer (a second FileLogWriter that gets every record): W W, both files renamed, reopen_output, W W",
         assumptions: vec![
             "size limit huge (rotation only when triggered), append on (a reset back to an earlier family continues it)".into(),
             "records the user destroyed with ExtRemove are exempt".into(),
@@ -647,7 +647,86 @@ fn decode(unit: usize) -> (ModeK, Option<NamingK>, bool, usize) {
     (modes()[(unit / (a * r)) % m], rots()[(unit / a) % r], unit / (a * r * m) == 0, unit % a)
 }
 
+/// The fan-out of reopen_output for `log_to_file_and_writer` (a file plus a second
+/// FileLogWriter that gets every record): W W, both files renamed externally, reopen_output(),
+/// W W, shutdown - for both writers the first two records are in the renamed file and the last
+/// two in a new file at the original path.
+fn file_and_writer(mode: ModeK) -> Result<(), Fail> {
+    let env = Env::new("c18f");
+    env.enter();
+    let sdir = env.dir.join("side");
+    let second = flexi_logger::writers::FileLogWriter::builder(flexi_logger::FileSpec::default().directory(&sdir).basename("side").suppress_timestamp())
+        .format(lg::payload_format)
+        .write_mode(mode.write_mode())
+        .try_build()
+        .map_err(|e| Fail {
+            clause: "build-error",
+            at: 0,
+            detail: e.to_string(),
+        })?;
+    let (logger, handle) = flexi_logger::Logger::with(flexi_logger::LogSpecification::trace())
+        .log_to_file_and_writer(flexi_logger::FileSpec::default().directory(&env.dir).basename("app").suppress_timestamp(), Box::new(second))
+        .format(lg::payload_format)
+        .write_mode(mode.write_mode())
+        .error_channel(flexi_logger::ErrorChannel::File(env.err.clone()))
+        .build()
+        .map_err(|e| Fail {
+            clause: "build-error",
+            at: 0,
+            detail: e.to_string(),
+        })?;
+    let msgs: Vec<String> = (0..4).map(|i| lg::payload(0, i, 8)).collect();
+    lg::log_info(&*logger, &msgs[0]);
+    lg::log_info(&*logger, &msgs[1]);
+    let files = [(env.dir.join("app.log"), env.dir.join("app.moved")), (sdir.join("side.log"), sdir.join("side.moved"))];
+    for (p, moved) in &files {
+        std::fs::rename(p, moved).map_err(|e| Fail {
+            clause: "machinery",
+            at: 2,
+            detail: format!("rename {}: {e}", p.display()),
+        })?;
+    }
+    let r = handle.reopen_output();
+    lg::log_info(&*logger, &msgs[2]);
+    lg::log_info(&*logger, &msgs[3]);
+    handle.shutdown();
+    drop(logger);
+    drop(handle);
+    env.leave();
+    if let Err(e) = r {
+        return Err(Fail {
+            clause: "reopen-error",
+            at: 3,
+            detail: e.to_string(),
+        });
+    }
+    for (i, (p, moved)) in files.iter().enumerate() {
+        let old = String::from_utf8_lossy(&std::fs::read(moved).unwrap_or_default()).to_string();
+        let new = String::from_utf8_lossy(&std::fs::read(p).unwrap_or_default()).to_string();
+        if old != format!("{}\n{}\n", msgs[0], msgs[1]) || new != format!("{}\n{}\n", msgs[2], msgs[3]) {
+            return Err(Fail {
+                clause: "file-content!=model",
+                at: 5,
+                detail: format!("log_to_file_and_writer, W W [both files renamed] reopen_output W W: {} writer: renamed file holds {old:?}, the file at the original path {new:?}", ["file", "second"][i]),
+            });
+        }
+    }
+    Ok(())
+}
+
 fn run_unit(tier: &str, unit: usize, out: &mut Out) {
+    if unit < modes().len() {
+        let mode = modes()[unit];
+        out.evaluations += 1;
+        out.count("file_and_writer_cases", 1);
+        let case = json!({"file_and_writer": unit});
+        match run_isolated(Duration::from_secs(30), move || file_and_writer(mode)) {
+            Ran::Done(Ok(())) => {}
+            Ran::Done(Err(f)) => out.violation(Violation::new(f.clause, format!("Reopen/{}/file+second-writer", super::c08::mode_class(mode)), format!("mode={mode:?}: {}", f.detail), case)),
+            Ran::Panicked(m) => out.violation(Violation::new("panic", "file+second-writer", m, case)),
+            Ran::Hung => out.violation(Violation::new("hang", "file+second-writer", String::new(), case)),
+        }
+    }
     let (mode, rot, append, first) = decode(unit);
     let alpha = alphabet();
     let d = depth(tier);
@@ -686,6 +765,16 @@ fn run_unit(tier: &str, unit: usize, out: &mut Out) {
 }
 
 fn replay(case: &Value) -> Vec<Violation> {
+    if let Some(u) = case["file_and_writer"].as_u64() {
+        let mode = modes()[(u as usize).min(modes().len() - 1)];
+        println!("replay C18: log_to_file_and_writer, mode {mode:?}");
+        return match run_isolated(Duration::from_secs(30), move || file_and_writer(mode)) {
+            Ran::Done(Ok(())) => vec![],
+            Ran::Done(Err(f)) => vec![Violation::new(f.clause, format!("Reopen/{}/file+second-writer", super::c08::mode_class(mode)), f.detail, case.clone())],
+            Ran::Panicked(m) => vec![Violation::new("panic", "file+second-writer", m, case.clone())],
+            Ran::Hung => vec![Violation::new("hang", "file+second-writer", String::new(), case.clone())],
+        };
+    }
     let unit = case["unit"].as_u64().unwrap_or(0) as usize;
     let (mode, rot, append, _) = decode(unit);
     let alpha = alphabet();
